@@ -438,6 +438,7 @@ fn evidence(o: &CheckOpts, res: &BatchResult, det: (u64, u64), new_violations: u
         .put("sim_time_s", J::Num(st.sim_time_us as f64 / 1e6))
         .put("worlds", worlds_j)
         .put("counters", counters_j)
+        .put("counters_note", J::s("counters are summed over the shared simulation worlds of this batch; oracles that belong to other properties are evaluated there too, but only this property's violations are reported by this check"))
         .put("faults_fired", faults)
         .put("fault_kinds_never_fired", J::strs(never))
         .put("cells", cells)
